@@ -140,4 +140,20 @@ m1 1001 1.0
 m2 1001 1.0
 """
 
-CORPUS = [('A', A), ('B', B), ('C', C), ('D', D), ('E', E), ('F', F), ('G', G), ('H', H)]
+I = """corpus I: the same oblique plane twice with opposite orientation, an axis-aligned one likewise
+1 1 -1.0 -1 -3 5 imp:n=1
+2 2 -1.0 2 -3 -6 imp:n=1
+3 1 -2.0 -3 #1 #2 imp:n=1
+4 0 3 imp:n=0
+
+1 p 1 1 0 1
+2 p -1 -1 0 -1
+3 so 6
+5 p 0 0 -1 2
+6 p 0 0 2 -4
+
+m1 1001 1.0
+m2 1001 1.0
+"""
+
+CORPUS = [('A', A), ('B', B), ('C', C), ('D', D), ('E', E), ('F', F), ('G', G), ('H', H), ('I', I)]
